@@ -106,3 +106,35 @@ def true_mic2(pos, cell, pbc, reach):
             v = pos[i] - pos[j] - shifts          # r_i - (r_j + n·cell)
             d2[i, j] = (v * v).sum(axis=1).min()
     return d2
+
+
+def images_within(cell, pbc, d, R):
+    """all integer vectors n (zero on non-periodic axes) with |d - n·cell| <= R, via a Minkowski-reduced basis
+    (the enumeration box of the reduced basis is small even for strongly sheared cells).  Returns (ns, d - n·cell)."""
+    from ase.geometry.minkowski_reduction import minkowski_reduce
+    cell = np.asarray(cell, dtype=float)
+    pbc = [bool(b) for b in pbc]
+    if not any(pbc):
+        v = np.asarray(d, dtype=float)[None, :]
+        return (np.zeros((1, 3), dtype=int), v) if (v * v).sum() <= R * R + 1e-12 else (np.zeros((0, 3), dtype=int), np.zeros((0, 3)))
+    full = cell.copy()
+    # complete zero rows so that the cell is invertible (they are never used: multiplier 0)
+    if abs(np.linalg.det(full)) < 1e-12:
+        from ase.geometry.cell import complete_cell
+        full = complete_cell(full)
+    rcell, op = minkowski_reduce(full, pbc)
+    inv = np.linalg.inv(rcell)
+    f = np.asarray(d, dtype=float) @ inv
+    vol = abs(np.linalg.det(rcell))
+    h = np.array([vol / np.linalg.norm(np.cross(rcell[(i + 1) % 3], rcell[(i + 2) % 3])) for i in range(3)])
+    rng = []
+    for i in range(3):
+        if pbc[i]:
+            rng.append(range(int(np.floor(f[i] - R / h[i])) - 1, int(np.ceil(f[i] + R / h[i])) + 2))
+        else:
+            rng.append(range(0, 1))
+    ms = np.array(list(itertools.product(*rng)), dtype=float)
+    ns = np.rint(ms @ op).astype(int)
+    vec = np.asarray(d, dtype=float) - ns @ cell
+    keep = (vec * vec).sum(axis=1) <= R * R + 1e-12
+    return ns[keep], vec[keep]
